@@ -26,14 +26,15 @@ Record mux := mkmux {
   m_frag : Z;
   m_frags : list finfo;  (* ring of fragsCapacity() slots *)
   m_patpmt : bytes;
-  m_cur : path           (* Fragment.fp: the file the open handle refers to *)
+  m_cur : path;          (* Fragment.fp: the file the open handle refers to *)
+  m_hist : list Z        (* GHOST (never read by the model): hls.Clock value of every fragment opened so far, oldest first *)
 }.
 
 Definition cap (c : cfg) : Z := c_num c + c_thr c + 1.
 
 (* NewMuxer *)
 Definition new_mux (c : cfg) : mux :=
-  mkmux false 0 fl0 0 0 (repeat fi0 (Z.to_nat (cap c))) [] PDir.
+  mkmux false 0 fl0 0 0 (repeat fi0 (Z.to_nat (cap c))) [] PDir [].
 
 Definition slot (c : cfg) (m : mux) (n : Z) : nat := Z.to_nat ((m_frag m + n) mod cap c).
 Definition get_slot (m : mux) (i : nat) : finfo := nth i (m_frags m) fi0.
@@ -47,14 +48,14 @@ Fixpoint set_nth {A} (i : nat) (x : A) (l : list A) : list A :=
   end.
 
 Definition with_frags (m : mux) (fr : list finfo) : mux :=
-  mkmux (m_opened m) (m_fragts m) (m_recmax m) (m_nfrags m) (m_frag m) fr (m_patpmt m) (m_cur m).
+  mkmux (m_opened m) (m_fragts m) (m_recmax m) (m_nfrags m) (m_frag m) fr (m_patpmt m) (m_cur m) (m_hist m).
 Definition set_slot (m : mux) (i : nat) (f : finfo) : mux := with_frags m (set_nth i f (m_frags m)).
 
 (* incrFrag *)
 Definition incr_frag (c : cfg) (m : mux) : mux :=
   if m_nfrags m =? c_num c
-  then mkmux (m_opened m) (m_fragts m) (m_recmax m) (m_nfrags m) (m_frag m + 1) (m_frags m) (m_patpmt m) (m_cur m)
-  else mkmux (m_opened m) (m_fragts m) (m_recmax m) (m_nfrags m + 1) (m_frag m) (m_frags m) (m_patpmt m) (m_cur m).
+  then mkmux (m_opened m) (m_fragts m) (m_recmax m) (m_nfrags m) (m_frag m + 1) (m_frags m) (m_patpmt m) (m_cur m) (m_hist m)
+  else mkmux (m_opened m) (m_fragts m) (m_recmax m) (m_nfrags m + 1) (m_frag m) (m_frags m) (m_patpmt m) (m_cur m) (m_hist m).
 
 Definition seg_of (f : finfo) : seg := mkseg (fi_now f) (fi_id f) (fi_dur f) (fi_discont f).
 Definition fi_path (f : finfo) : path := PTs (fi_now f) (fi_id f).
@@ -70,22 +71,26 @@ Definition frag_target (c : cfg) : fl := f_div (f_of_Z (c_ms c)) (f_of_Z 1000).
 Definition live_target_orig (c : cfg) (l : list finfo) : Z :=
   f_trunc (fold_left (fun mx f => if f_ltb mx (fi_dur f) then f_add (fi_dur f) f_half else mx) l (frag_target c)).
 
-(* writePlaylist after "fix: hls target duration": maximum first, rounded once *)
-Definition live_target (c : cfg) (l : list finfo) : Z :=
-  f_trunc (f_add (fold_left (fun mx f => if f_ltb mx (fi_dur f) then fi_dur f else mx) l (frag_target c)) f_half).
+(* calcTargetDuration (added by the fix): (int(math.Round(maxDuration*1000)) + 500) / 1000 *)
+Definition calc_target (mx : fl) : Z := (f_round (f_mul mx (f_of_Z 1000)) + 500) / 1000.
+
+(* writePlaylist after the fix: plain maximum of fragment_duration_ms/1000 and the listed durations *)
+Definition max_dur (l : list finfo) (init : fl) : fl :=
+  fold_left (fun mx f => if f_ltb mx (fi_dur f) then fi_dur f else mx) l init.
+Definition live_target (c : cfg) (l : list finfo) : Z := calc_target (max_dur l (frag_target c)).
 
 Definition live_playlist (c : cfg) (m : mux) (is_last : bool) : playlist :=
   let l := frags_in_playlist c m in
-  mkpl (live_target_orig c l) (m_frag m) (map seg_of l) is_last.
+  mkpl (live_target c l) (m_frag m) (map seg_of l) is_last.
 
 Definition with_recmax (m : mux) (r : fl) : mux :=
-  mkmux (m_opened m) (m_fragts m) r (m_nfrags m) (m_frag m) (m_frags m) (m_patpmt m) (m_cur m).
+  mkmux (m_opened m) (m_fragts m) r (m_nfrags m) (m_frag m) (m_frags m) (m_patpmt m) (m_cur m) (m_hist m).
 
 (* writeRecordPlaylist; s = file system at the moment of the ReadFile *)
 Definition write_record (c : cfg) (m : mux) (s : fs) : mux * list op :=
   let cur := get_frag c m (m_nfrags m - 1) in
-  let m1 := if f_ltb (m_recmax m) (fi_dur cur) then with_recmax m (f_add (fi_dur cur) f_half) else m in
-  let tgt := f_trunc (m_recmax m1) in
+  let m1 := if f_ltb (m_recmax m) (fi_dur cur) then with_recmax m (fi_dur cur) else m in
+  let tgt := calc_target (m_recmax m1) in
   let sg := seg_of cur in
   match fs_lookup PRec s with
   | Some f =>
@@ -106,7 +111,7 @@ Definition write_record (c : cfg) (m : mux) (s : fs) : mux * list op :=
 (* closeFragment; s = file system on entry *)
 Definition close_fragment (c : cfg) (m : mux) (s : fs) (is_last : bool) : mux * list op :=
   if negb (m_opened m) then (m, []) else
-  let m1 := incr_frag c (mkmux false (m_fragts m) (m_recmax m) (m_nfrags m) (m_frag m) (m_frags m) (m_patpmt m) (m_cur m)) in
+  let m1 := incr_frag c (mkmux false (m_fragts m) (m_recmax m) (m_nfrags m) (m_frag m) (m_frags m) (m_patpmt m) (m_cur m) (m_hist m)) in
   let ops1 := [OClose (m_cur m);
                OWriteFile PLiveBak (print_live (c_stream c) (live_playlist c m1 is_last));
                ORename PLiveBak PLive] in
@@ -124,7 +129,7 @@ Definition open_fragment (c : cfg) (m : mux) (ts : Z) (discont : bool) (now : Z)
   let id := m_frag m + m_nfrags m in
   let p := PTs now id in
   let fr := set_nth (slot c m (m_nfrags m)) (mkfi id fl0 discont true now) (m_frags m) in
-  (mkmux true ts (m_recmax m) (m_nfrags m) (m_frag m) fr (m_patpmt m) p,
+  (mkmux true ts (m_recmax m) (m_nfrags m) (m_frag m) fr (m_patpmt m) p (m_hist m ++ [now])%list,
    [OCreate p; OWrite p (m_patpmt m)]).
 
 Definition neg_max_fraglen : Z := 1000 * 90.
@@ -169,7 +174,7 @@ Inductive event :=
 Record world := mkworld { w_mux : option mux; w_fs : fs }.
 
 Definition with_patpmt (m : mux) (b : bytes) : mux :=
-  mkmux (m_opened m) (m_fragts m) (m_recmax m) (m_nfrags m) (m_frag m) (m_frags m) b (m_cur m).
+  mkmux (m_opened m) (m_fragts m) (m_recmax m) (m_nfrags m) (m_frag m) (m_frags m) b (m_cur m) (m_hist m).
 
 (* FeedMpegts *)
 Definition feed (c : cfg) (m : mux) (s : fs) (audio : bool) (pts dts : Z) (boundary : bool) (now : Z) (pk : bytes) : mux * list op :=
